@@ -76,7 +76,7 @@ func genC16() *rapid.Generator[*Spec] {
 			var b strings.Builder
 			// (math/bits and unicode/utf8 have no dependencies of their own: Wire
 			// type-checks every dependency from source on each run)
-			b.WriteString("func ZzCopied(zzv []uint) string {\n\tzzout := string(rune('a' + zzb.Len(3) + zzu.RuneLen('x')))\n")
+			b.WriteString("// ZzCopied is an ordinary function of the injector file.\n//\n//go:noinline\nfunc ZzCopied(zzv []uint) string {\n\tzzout := string(rune('a' + zzb.Len(3) + zzu.RuneLen('x')))\n")
 			n := rapid.IntRange(2, 6).Draw(t, "locals")
 			for i := 0; i < n; i++ {
 				name := rapid.SampledFrom([]string{"bits", "utf8"}).Draw(t, "local")
@@ -95,6 +95,12 @@ func genC16() *rapid.Generator[*Spec] {
 			s.InjExtra = b.String()
 			s.InjExtraImports = map[string]string{"math/bits": "zzb", "unicode/utf8": "zzu"}
 			s.Note = strings.TrimSpace(s.Note + " copied-decl")
+		}
+		// doc comments: Wire copies them into its output, wherever it is invoked from
+		for k := range s.Injectors {
+			if rapid.IntRange(0, 99).Draw(t, "doc") < 70 {
+				s.Injectors[k].Doc = fmt.Sprintf("%s builds the result number %d.", s.Injectors[k].Name, k)
+			}
 		}
 		s.Note = strings.TrimSpace(s.Note + " C16")
 		return s
@@ -293,6 +299,8 @@ func c16Eval(c *Ctx) func([]*Spec) []c16Obs {
 					{"with-zzz-first", root, []string{"gen", "./progs/zzz", "./progs/" + name, "./progs/aaa"}},
 					{"all", root, []string{"gen", "./progs/..."}},
 					{"twin", root, []string{"gen", "./progs/" + name, "./progs/" + name + "twin"}},
+					{"from-sibling", filepath.Join(root, "progs", "aaa"), []string{"gen", "../" + name}},
+					{"from-elsewhere-full", filepath.Join(root, "blank"), []string{"gen", full}},
 					{"rel-again", root, []string{"gen", "./progs/" + name}},
 					{"rel-third", root, []string{"gen", "./progs/" + name}},
 				}
@@ -382,7 +390,7 @@ func judgeC16(c *Ctx, s *Spec, o c16Obs, count bool) *Fail {
 func init() {
 	Register(&Property{
 		ID: "C16", Level: "exploration",
-		Rule:        "accepted WF programs (up to 14 type nodes, 1-4 packages, 40% under adversarial names incl. equal package names, 0-2 blank imports) whose dependency packages carry external import paths, half of them carrying a copied declaration with 2-6 distinct locals that collide with import names, rendered into 5 layouts {module checkout, module checkout at a deeper path, GOPATH (GO111MODULE=off), GOPATH with the dependencies and the wire package under the project's vendor/, GOPATH with them under the GOPATH-wide $GOPATH/src/vendor} x 10 invocations {relative pattern from the module root, `.` in the package directory, default-command form, full import path, together with a companion package that sorts before it and has a blank import, companions in other orders, ./progs/..., and two repetitions}; 50 wire processes per program. Oracle: every configuration succeeds and writes bytes identical to the canonical one; the output contains neither the workspace path nor a vendor/ segment. evaluations = wire invocations. Non-trivial = program whose output imports >=3 packages, has >=2 value variables, or blank imports; distinct by program hash.",
+		Rule:        "accepted WF programs (up to 14 type nodes, 1-4 packages, 40% under adversarial names incl. equal package names, 0-2 blank imports) whose dependency packages carry external import paths, half of them carrying a copied declaration with 2-6 distinct locals that collide with import names, rendered into 5 layouts {module checkout, module checkout at a deeper path, GOPATH (GO111MODULE=off), GOPATH with the dependencies and the wire package under the project's vendor/, GOPATH with them under the GOPATH-wide $GOPATH/src/vendor} x 12 invocations {relative pattern from the module root, `.` in the package directory, default-command form, full import path, from a sibling directory (`../pkg`) and from an unrelated directory by import path, together with a companion package that sorts before it and has a blank import, companions in other orders, ./progs/..., and two repetitions}; 60 wire processes per program. Oracle: every configuration succeeds and writes bytes identical to the canonical one; the output contains neither the workspace path nor a vendor/ segment. evaluations = wire invocations. Non-trivial = program whose output imports >=3 packages, has >=2 value variables, or blank imports; distinct by program hash.",
 		Assumptions: []string{"the canonical output is produced by the same binary (metamorphic relation across configurations)", "map-iteration nondeterminism is sampled by 3 repetitions per layout in fresh processes, not excluded"},
 		Shards: func(tier string) int {
 			if tier == "thorough" {
